@@ -123,9 +123,18 @@ def r12_2(ctx):
     ref_end = nf.fn("min", *sorted([ik.H("curr_t") + ik.H("step_size"), nf.sym("ts[-1]", True)],
                                    key=lambda v: repr(Rat.lift(v).key())))
     t_end = nf.sym("ts[-1]", True)
+    # a fixed-step grid may be indexed (ts[0] + k dt with a step counter k) instead of accumulated: under the counter's
+    # inductive hypothesis both are the same grid
+    counters = ik.step_counters(model)
     for adaptive in (False, True):
         for p in _paths(ctx, adaptive):
             base = f"{fi.key}::R12.2::{'adaptive' if adaptive else 'fixed'}::{p.label()}"
+            if counters and not adaptive:
+                p.steps = [tuple(nf.deep_substitute(x, counters) if isinstance(x, Rat) else x for x in st[:2]) + tuple(st[2:])
+                           for st in p.steps]
+                for k in list(p.env):
+                    if isinstance(p.env[k], Rat):
+                        p.env[k] = nf.deep_substitute(p.env[k], counters)
             if not p.steps:
                 rep.fail("R12.2", astq.loc(fi, while_node), f"{base}::no-step",
                          f"an iteration of the stepping loop takes no step on path [{p.label()}]")
@@ -230,7 +239,8 @@ def r12_4(ctx):
     # linear_interp itself
     li = model.func(INTERP, "linear_interp")
     rep.analysed(li)
-    it = Interp(model, ik.LoopHooks({}))
+    # an output strictly inside the step: ta < tq < tb (the end point itself is R12.8's business)
+    it = Interp(model, ik.LoopHooks({}, ordering={"ta": Fraction(1), "tq": Fraction(2), "tb": Fraction(4)}))
     a0, b0, a1, b1, tt = nf.sym("ta", True), nf.sym("ya"), nf.sym("tb", True), nf.sym("yb"), nf.sym("tq", True)
     val = it.call_function(li, [], {"t0": a0, "y0": b0, "t1": a1, "y1": b1, "t": tt})
     ref = _interp_reference(a0, b0, a1, b1, tt)
@@ -238,7 +248,8 @@ def r12_4(ctx):
               f"linear_interp returns `{val}`, which is not the linear interpolant `{ref}`",
               "y0 + (t - t0)/(t1 - t0) (y1 - y0)")
     # the call in integrate
-    pt, _ = ik.run_body(model, False, tail, {})
+    pt, _ = ik.run_body(model, False, tail, {}, ordering={"prev_t@head": Fraction(1), "out_t": Fraction(2),
+                                                          "curr_t@head": Fraction(4)})
     ys2 = pt.env.get("ys")
     if not (isinstance(ys2, list) and len(ys2) == 2):
         raise AnalysisError("R12.4: could not isolate the value appended per output time", where=astq.loc(fi))
@@ -358,21 +369,86 @@ def _fx_show(t):
     return f"({_fx_show(t[2])} {sym} {_fx_show(t[3])})"
 
 
+_FX_MODELS = ((1.0, 2.0), (1000.0, 1000.001), (-5.0, -4.9999), (0.0, 1e-6), (-1e-3, 1e3))
+
+
+def _fx_decide(test, env):
+    """Truth value of a test on the times, if it is the same on steps [t0, t1] of very different scale and position
+    (t0 < t1 always); None if it depends on the scale (a tolerance test) or mentions anything but times."""
+    def num(e, m):
+        if isinstance(e, ast.Constant) and isinstance(e.value, (int, float)) and not isinstance(e.value, bool):
+            return float(e.value)
+        if isinstance(e, ast.Name):
+            v = env.get(e.id)
+            if v is None or v[0] != "sym" or v[1] not in ("t0", "t1"):
+                raise ValueError
+            return m[0] if v[1] == "t0" else m[1]
+        if isinstance(e, ast.UnaryOp) and isinstance(e.op, ast.USub):
+            return -num(e.operand, m)
+        if isinstance(e, ast.BinOp) and isinstance(e.op, (ast.Add, ast.Sub, ast.Mult, ast.Div)):
+            a, b = num(e.left, m), num(e.right, m)
+            return a + b if isinstance(e.op, ast.Add) else a - b if isinstance(e.op, ast.Sub) else a * b if isinstance(e.op, ast.Mult) else a / b
+        if isinstance(e, ast.Call) and isinstance(e.func, ast.Name) and e.func.id == "abs" and len(e.args) == 1:
+            return abs(num(e.args[0], m))
+        raise ValueError
+
+    def truth(e, m):
+        if isinstance(e, ast.BoolOp):
+            vals = [truth(v, m) for v in e.values]
+            return all(vals) if isinstance(e.op, ast.And) else any(vals)
+        if isinstance(e, ast.UnaryOp) and isinstance(e.op, ast.Not):
+            return not truth(e.operand, m)
+        if isinstance(e, ast.Compare):
+            left = num(e.left, m)
+            for op, r in zip(e.ops, e.comparators):
+                right = num(r, m)
+                ok = {ast.Lt: left < right, ast.LtE: left <= right, ast.Gt: left > right, ast.GtE: left >= right,
+                      ast.Eq: left == right, ast.NotEq: left != right}.get(type(op))
+                if ok is None:
+                    raise ValueError
+                if not ok:
+                    return False
+                left = right
+            return True
+        raise ValueError
+    try:
+        vals = {truth(test, m) for m in _FX_MODELS}
+    except (ValueError, ZeroDivisionError):
+        return None
+    return vals.pop() if len(vals) == 1 else None
+
+
 def fx_function(fi, args):
-    """Float-exact value returned by a straight-line function (assert statements are skipped)."""
-    env = dict(args)
-    for st in fi.node.body:
-        if isinstance(st, ast.Expr) and isinstance(st.value, ast.Constant):
-            continue
-        if isinstance(st, ast.Assert):
-            continue
-        if isinstance(st, ast.Assign) and len(st.targets) == 1 and isinstance(st.targets[0], ast.Name):
-            env[st.targets[0].id] = _fx(st.value, env)
-            continue
-        if isinstance(st, ast.Return) and st.value is not None:
-            return _fx(st.value, env)
-        raise AnalysisError(f"float-exact evaluation: unsupported statement `{ast.unparse(st)[:60]}`", where=astq.loc(fi, st))
-    raise AnalysisError("float-exact evaluation: no return reached", where=astq.loc(fi))
+    """Float-exact values a function can return (assert statements are skipped; at an `if` whose test is not decided
+    here both arms are followed, so the result is the list of all values some path returns)."""
+    out = []
+
+    def block(stmts, env):
+        """Returns True if every path through `stmts` has returned."""
+        for i, st in enumerate(stmts):
+            if isinstance(st, ast.Expr) and isinstance(st.value, ast.Constant):
+                continue
+            if isinstance(st, ast.Assert):
+                continue
+            if isinstance(st, ast.Assign) and len(st.targets) == 1 and isinstance(st.targets[0], ast.Name):
+                env[st.targets[0].id] = _fx(st.value, env)
+                continue
+            if isinstance(st, ast.Return) and st.value is not None:
+                out.append(_fx(st.value, env))
+                return True
+            if isinstance(st, ast.If):
+                d = _fx_decide(st.test, env)
+                if d is not None:
+                    return block((st.body if d else st.orelse) + stmts[i + 1:], env)
+                e1, e2 = dict(env), dict(env)
+                r1 = block(st.body + stmts[i + 1:], e1)
+                r2 = block(st.orelse + stmts[i + 1:], e2)
+                return r1 and r2
+            raise AnalysisError(f"float-exact evaluation: unsupported statement `{ast.unparse(st)[:60]}`", where=astq.loc(fi, st))
+        return False
+    if not block(list(fi.node.body), dict(args)) or not out:
+        raise AnalysisError("float-exact evaluation: a path reaches the end of the function without a return", where=astq.loc(fi))
+    return out
 
 
 def r12_8(ctx):
@@ -386,7 +462,8 @@ def r12_8(ctx):
     for at, want in (("t1", "y1"), ("t0", "y0")):
         env = {n: ("sym", n) for n in ("t0", "y0", "t1", "y1")}
         env["t"] = ("sym", at)
-        val = fx_function(li, env)
+        vals = fx_function(li, env)
+        val = next((v for v in vals if v != ("sym", want)), ("sym", want))
         rep.check(val == ("sym", want), "R12.8", astq.loc(li), f"{li.key}::R12.8::t={at}",
                   f"at t = {at} linear_interp evaluates, with floating-point-exact simplifications only, to "
                   f"`{_fx_show(val)}` instead of `{want}`: the value reported at a grid time is not the solver's own state "
